@@ -288,6 +288,13 @@ func (d *protoDom) step(st *sState, in ssa.Instruction) bool {
 				st.vals[x] = pByteRef{pb.t, int(c.Int64())}
 				return true
 			}
+			// an index the guards of the path pin (len(b)-1 after len(b) == 32)
+			if pi, ok := e.get(st, x.Index).(pInt); ok {
+				if c, ok := d.pinTerm(st, pi.t); ok {
+					st.vals[x] = pByteRef{pb.t, int(c)}
+					return true
+				}
+			}
 		}
 		// fields of protocol objects that stand for their limb arrays
 		if o, ok := a.(pObj); ok {
@@ -570,6 +577,59 @@ func protoCallName(p *Prog, call *ssa.Call) (string, []ssa.Value) {
 }
 
 // infeasible: the facts of the path contradict each other
+// split: a byte of a string addressed by an index that depends on a length the path bounds but does not pin
+// (priv[len(priv)-1] after len(priv) <= 32) is decided per length: the state becomes the first feasible length and the
+// other lengths are returned as new states
+func (d *protoDom) split(e *sched, st *sState, in ssa.Instruction) []*sState {
+	x, ok := in.(*ssa.IndexAddr)
+	if !ok {
+		return nil
+	}
+	if _, ok := e.get(st, x.X).(pBytes); !ok {
+		return nil
+	}
+	pi, ok := e.get(st, x.Index).(pInt)
+	if !ok {
+		return nil
+	}
+	if _, ok := d.pinTerm(st, pi.t); ok {
+		return nil
+	}
+	var lt *pt
+	var find func(t *pt)
+	find = func(t *pt) {
+		if t.op == "len" && lt == nil {
+			lt = t
+		}
+		if t.op == "add" || t.op == "neg" {
+			for _, a := range t.args {
+				find(a)
+			}
+		}
+	}
+	find(pi.t)
+	const maxLen = 64
+	if lt == nil || !proveP(st.pfacts, lt, token.LEQ, pC(maxLen)) {
+		return nil
+	}
+	var cases []*sState
+	for c := int64(0); c <= maxLen; c++ {
+		if proveP(st.pfacts, lt, token.NEQ, pC(c)) {
+			continue
+		}
+		cs := st.clone()
+		cs.addFact(pFact{a: lt, op: token.EQL, b: pC(c)})
+		if !d.infeasible(cs) {
+			cases = append(cases, cs)
+		}
+	}
+	if len(cases) == 0 {
+		return nil
+	}
+	*st = *cases[0]
+	return cases[1:]
+}
+
 func (d *protoDom) infeasible(st *sState) bool {
 	return proveP(st.pfacts, pC(0), token.GEQ, pC(1))
 }
@@ -610,4 +670,15 @@ func (d *protoDom) normInt(st *sState, t *pt) *pt {
 		n.args[i] = d.normInt(st, a)
 	}
 	return &n
+}
+
+// decideCmp: does the path decide a OP b?
+func (d *protoDom) decideCmp(st *sState, a *pt, op token.Token, b *pt) (bool, bool) {
+	if proveP(st.pfacts, a, op, b) {
+		return true, true
+	}
+	if proveP(st.pfacts, a, negOp[op], b) {
+		return false, true
+	}
+	return false, false
 }
